@@ -97,4 +97,17 @@ pub fn vx_collect_results<I: Iterator<Item = core::result::Result<T, E>>, T, E>(
 pub fn vx_collect_unconstrained<I: Iterator, B: core::iter::FromIterator<I::Item>>(it: I) -> (r: B)
 { it.collect() }
 
+
+// collect::<BTreeMap<K, V>>() of (key, value) pairs: inserted in order, a later pair replaces an earlier one with the same key
+pub open spec fn map_of_pairs<K, V>(s: Seq<(K, V)>, n: int) -> Map<K, V>
+    decreases n
+{
+    if n <= 0 { Map::<K, V>::empty() } else { map_of_pairs(s, n - 1).insert(s[n - 1].0, s[n - 1].1) }
+}
+#[verifier::external_body]
+pub fn vx_collect_btreemap<I: Iterator<Item = (K, V)>, K: Ord, V>(it: I) -> (r: std::collections::BTreeMap<K, V>)
+    ensures
+        it.obeys_prophetic_iter_laws() && vstd::std_specs::btree::key_obeys_cmp_spec::<K>() ==> r@ == map_of_pairs(it.remaining(), it.remaining().len() as int),
+{ it.collect() }
+
 } // verus!
